@@ -130,7 +130,7 @@ def _ids(tier):
                 # quick: a condition slot and an effect slot of ONE durative action interact through
                 # the start-effect substitution, so these pairs run over the full pools
                 owners = set(s.split(".")[0] for s in combo)
-                kinds = sorted(s.split(".")[1][:4] for s in combo)
+                kinds = sorted(s.split(".")[-1][:4] for s in combo)
                 full = len(owners) == 1 and owners <= {"d1", "d2"} and kinds in (["cond", "eff2"], ["cond", "eff3"])
             idxs = [[i for i, (_x, core) in enumerate(pool(s)) if core or full] for s in combo]
             for pick in product(*idxs):
